@@ -3,7 +3,8 @@
 Unit: Interpreter.execute_once through the public API on generated charts of all six state
 kinds with free transition targets (W7, W9 assumed), driven by K events.  Symbolic scalars: one
 guard bit per (transition, step).  Solver-enumerated: chart, initial/memory choices, transitions,
-event sequence.  Oracle: independent legality predicate over the generated arrays
+event sequence, and how the chart was put together (directly, or by editing: states attached
+elsewhere, the half-built chart executed and queried, then moved into place).  Oracle: independent legality predicate over the generated arrays
 (chartgen.CM.legal) after every normal return; stability probe (a further step with nothing
 pending and every guard false returns None and changes nothing); finality is absorbing.
 """
